@@ -8,16 +8,29 @@ only = set(sys.argv[1:])
 def run(d):
     pid = os.path.basename(os.path.dirname(d)).split("-")[1]
     name = os.path.basename(d)
+    if pid.endswith("x"):      # a second pair of seeds for the same property: C, D
+        pid = pid[:-1]
+        name = {"A": "C", "B": "D"}[name]
     sid = "%s-%s" % (pid, name)
     if only and sid not in only and pid not in only:
         return sid, None
-    out = subprocess.run([sys.executable, os.path.join(ROOT, "tools", "seed_eval.py"), d, pid, name],
+    dst = os.path.join(ROOT, "seeded", sid)
+    prev = None
+    extra = []
+    if os.environ.get("SEED_RECHECK") and os.path.exists(os.path.join(dst, "meta.json")):
+        # the change was confirmed before (suite run recorded); only the checks are run again
+        prev = json.load(open(os.path.join(dst, "meta.json"))).get("what_was_run", {})
+        if prev.get("steps", {}).get("3_existing_suite_passes_with_patch", {}).get("ok"):
+            extra = ["--skip-suite"]
+    out = subprocess.run([sys.executable, os.path.join(ROOT, "tools", "seed_eval.py"), d, pid, name] + extra,
                          stdout=subprocess.PIPE, stderr=subprocess.PIPE, text=True, timeout=7200)
     try:
         res = json.loads(out.stdout)
     except Exception:
         res = {"error": out.stdout[-2000:] + out.stderr[-2000:]}
-    dst = os.path.join(ROOT, "seeded", sid)
+    if extra and "steps" in res:
+        res["steps"]["3_existing_suite_passes_with_patch"] = prev["steps"]["3_existing_suite_passes_with_patch"]
+        res["earlier_check_results"] = prev.get("earlier_check_results", []) + [prev.get("checks")]
     os.makedirs(dst, exist_ok=True)
     shutil.copy(os.path.join(d, "patch.diff"), dst)
     shutil.copy(os.path.join(d, "zz_seed_demo_test.go"), os.path.join(dst, "zz_seed_demo_test.go.txt"))
